@@ -139,6 +139,27 @@ def builder_root(prog, fk):
     return fk, climbed
 
 
+def second_splits(prog, fk, sp, ctors=None):
+    """One split value per list builder.  For the builder function fk (the one that owns the split the conversion / quoter is applied to): the
+    functions of its family (the builder's root, its private stages, same type / module) that build candidates and split the text *again*.
+    Counted per call, so that it makes no difference whether a stage is a function of its own or spliced into the builder.
+    Returns (root key, [function key per surplus split call])."""
+    root_s, _cl = builder_root(prog, fk)
+    own_ty = ((prog.fns[root_s].get("impl") or {}).get("self") or None)
+    fam = [k for k in prog.reach([root_s], foreign_trait_impls=False)
+           if k in prog.fns and (((prog.fns[k].get("impl") or {}).get("self") or None) == own_ty or prog.fns[k].get("kind") == "Closure"
+                                 or (not prog.fns[k].get("impl") and k.rsplit("::", 1)[0] == root_s.rsplit("::", 2)[0]))]
+    extra = []
+    for k in sorted(fam):
+        if prog.fns[k].get("kind") == "Closure":
+            continue
+        kb = prog.body(k)
+        n_sp = sum(1 for (_, t) in kb.calls() if callee_name(t) == sp)
+        if n_sp and (k == fk or push_events(prog, k, ctors)):
+            extra += [k] * (n_sp - 1 if k == fk else n_sp)
+    return root_s, extra
+
+
 def push_events(prog, fnkey, ctors=None, body=None):
     """All pushes into a Vec<Rank> performed by fnkey (directly or via an extend closure)."""
     ctors = ctors or rank_ctors(prog)
